@@ -518,7 +518,8 @@ class Interp:
             target = getattr(f, "__wrapped__", f)
             modname, qn = target.__module__, target.__qualname__
             try:
-                fdef = source.find_def(modname, qn)
+                code = getattr(target, "__code__", None)
+                fdef = source.find_def(modname, qn, firstlineno=code.co_firstlineno if code is not None else None)
             except KeyError:
                 raise Unsupported("cannot locate source of %s" % name)
             return self.call_def(fdef, importlib.import_module(modname), args, kwargs)
